@@ -25,6 +25,7 @@ PROPS = ["C13"]
 PREFIXES = ["C13_"]
 TRACE = ("Trace_Snapshot", "Trace_Snapshot.cfg")
 ENGINE = "snapshot"
+REPLAY = ("yx", lambda s, t: ["yata-run", "--in", s, "--out", t, "--seed", str(vlib.seed())], TRACE[0], TRACE[1])
 
 D_GROUPS = {
     "d_snap_seq": ("MC_Snapshot", "D_snap_seq.cfg"),
